@@ -39,10 +39,10 @@ type Plan struct {
 	Parallel bool   `json:"parallel,omitempty"`
 	PSS      bool   `json:"pss,omitempty"`
 	// which holders are alive, in arrival order (may contain duplicates = duplicated delivery)
-	Arrive  []int `json:"arrive"`
-	Restart []int `json:"restart,omitempty"` // holders that restart from their marshalled share first
-	Corrupt int   `json:"corrupt,omitempty"` // 1-based holder whose share is corrupted in flight (0 = none)
-	CField  string `json:"cfield,omitempty"` // value | id
+	Arrive  []int  `json:"arrive"`
+	Restart []int  `json:"restart,omitempty"` // holders that restart from their marshalled share first
+	Corrupt int    `json:"corrupt,omitempty"` // 1-based holder whose share is corrupted in flight (0 = none)
+	CField  string `json:"cfield,omitempty"`  // value | id
 	CBit    int    `json:"cbit,omitempty"`
 }
 
@@ -479,8 +479,8 @@ func main() {
 		},
 		Components: map[string]string{
 			"secretsharing, math/polynomial, tss/rsa (Deal, Sign, CombineSignShares, marshalers)": "real",
-			"which holders answer, arrival order, duplication, corruption":                         "stub: simulated transport with crash faults",
-			"holder / player storage": "stub: simulated disk (marshalled shares)",
+			"which holders answer, arrival order, duplication, corruption":                        "stub: simulated transport with crash faults",
+			"holder / player storage":         "stub: simulated disk (marshalled shares)",
 			"blinding and dealing randomness": "stub: deterministic entropy device",
 		},
 		ProbeNames: []string{"subset-of-exactly-t+1", "subset-of-exactly-k", "unqualified-subset"},
